@@ -136,6 +136,11 @@ func (r *timeoutDelimitedReader) readDelimitedMessageRaw() ([]byte, error) {
 
 func (r *timeoutDelimitedReader) read(numBytes int) ([]byte, error) {
 	data := make([]byte, numBytes)
+	if numBytes == 0 {
+		// Nothing to read. Don't call Read with an empty buffer: a pipe
+		// blocks until the peer writes again or closes its end.
+		return data, nil
+	}
 	var offs int
 	for {
 		numRead, err := r.in.Read(data[offs:])
